@@ -34,8 +34,8 @@ import (
 
 	"github.com/MontFerret/ferret/pkg/compiler"
 
-	. "verif/harness/common"
 	"verif/harness/cmd/c05/surface"
+	. "verif/harness/common"
 	"verif/harness/fqlast"
 	"verif/harness/fqlrun"
 )
@@ -264,6 +264,25 @@ func main() {
 		checkExpect(&ks, co, map[string]interface{}{n1: 1, n2: 2, "p": 3, "m": 4})
 		addAlt(&ks, co, surface.Rerender(rng, surface.Lex(canon), true), "case+layout", extra)
 		cases = append(cases, ks)
+	}
+
+	// ------------------------------------------------ echo: property names written as string literals
+	// (object keys and .name path segments) in each of the four quote styles
+	for _, nm := range []string{"a b", "é", "日本", "x-y", "", "k", "RETURN", "ß ü", "a.b", "😀", "1", "with space and ´"} {
+		for q := 0; q < 4; q++ {
+			if !surface.Admissible(nm, q) {
+				continue
+			}
+			qn := surface.Quote(nm, q)
+			canon := "RETURN {" + qn + ": 1, k2: {" + qn + ": 2}." + qn + "}"
+			co := run(canon, nil)
+			m.Evaluations++
+			p := &fqlast.Program{Ret: fqlast.Obj(fqlast.Prop{Kind: "named", Name: nm, Val: fqlast.Int(1)},
+				fqlast.Prop{Kind: "named", Name: "k2", Val: fqlast.Member(fqlast.Obj(fqlast.Prop{Kind: "named", Name: nm, Val: fqlast.Int(2)}), fqlast.Seg{Name: nm})})}
+			ks := kase{Canon: canon, AST: p.Coq(), Fam: "echo-quoted-names", Out: clip(outcomeKey(co), 200)}
+			checkExpect(&ks, co, map[string]interface{}{nm: 1, "k2": 2})
+			cases = append(cases, ks)
+		}
 	}
 
 	// ------------------------------------------------ write
